@@ -59,4 +59,9 @@ META = {
   "text": "Operation sequences (writers, readers, rotation, collection, resets, reopen) are generated and shrunk as plain data; because every byte is a function of its offset no stored model is needed and readers can be checked at any time. Exploration level; the sequential mode owns the order of operations, not the goroutine interleaving inside the cache.",
   "note": "Sequential driver (one operation at a time; the cache's own writer/reader goroutines run concurrently underneath). A live reader that does not catch up within 10 s is inconclusive (exit 2), not a violation.",
  },
+ "C08": {
+  "technique": "property-based testing (rapid) for the write sequence + exhaustive enumeration of frozen and torn directory images per sequence; oracle = image truth read back from the files vs. what a freshly opened cache reports and serves",
+  "text": "Crash instants of a file-based store are finite per write sequence (every truncation length of the newest file, each half-done rotation / collection / rename), so they are enumerated; each image is opened by the real start-up path (initDataSet, TruncateGap, ParseRdbFile) and every byte served is compared with the byte function. Fault enumeration level.",
+  "note": "Assumes ordered writes (no torn older files). With verifyCrc a reader that refuses an un-finalised newest segment is accepted (refusing is not serving wrong bytes).",
+ },
 }
